@@ -399,14 +399,22 @@ func genC13(r *simrt.Rand, tier string, idx uint64) *Plan {
 			case 3:
 				cp.Ops = append(cp.Ops, Op{Kind: "closeidle"})
 			case 4:
-				if faulty {
+				if faulty && r.Bool() {
 					a := r.Intn(ns)
 					cp.Ops = append(cp.Ops, Op{Kind: "kill", Addr: a}, genSpacing(r, p), Op{Kind: "restart", Addr: a})
+				} else if faulty {
+					// the network drops the connections while the server stays reachable: dead entries
+					// are replaced at once, concurrently with the callers that notice the failure
+					cp.Ops = append(cp.Ops, Op{Kind: "cutall", Addr: r.Intn(ns)})
 				} else {
 					cp.Ops = append(cp.Ops, Op{Kind: "wait"})
 				}
 			default:
-				cp.Ops = append(cp.Ops, genTCall(r, ns))
+				op := genTCall(r, ns)
+				if faulty && r.Chance(1, 2) {
+					op.Flags, op.Arg = FlSlow, uint32(1000*(1+r.Intn(1500)))
+				}
+				cp.Ops = append(cp.Ops, op)
 			}
 		}
 		p.Clients = append(p.Clients, cp)
